@@ -104,3 +104,7 @@ package verifext
 //@ extern func (s *spectypes.SignedPartialSignatureMessage) Decode(data []byte) (result error)
 //@ modifies everything
 //@ ensures result == nil ==> (forall k int :: 0 <= k && k < len(s.Message.Messages) ==> s.Message.Messages[k] != nil)
+
+//@ extern func (m *spectypes.SSVMessage) GetData() (result []byte)
+//@ pure
+//@ ensures same(result, m.Data)
